@@ -300,6 +300,55 @@ def h_multidb_bound(tid: bytes, form: str) -> None:
     reached()
 
 
+def h_mixed_commit(hist_first: bool, mod_live: bool, mod_hist: bool, sel: int) -> None:
+    """A historical connection and a live connection of the same database joined to ONE transaction (either
+    order of the two participants): the attempt to commit through the historical connection fails - it neither
+    succeeds nor waits for a lock its own transaction holds - nothing of the transaction is committed, and the
+    live connection commits normally afterwards."""
+    with untraced():
+        from zverif.symenv import locks
+        env = T.Env()
+        locks.install()
+        try:
+            g = GR.G(env).build('G1')
+            m = GR.model_from_storage(g.s)
+            k = choose(sel, len(m.txns) - 1) + 1            # any bound after the root's creation
+            hc = g.db.open(g.tm, before=m.txns[k].tid)
+            live = g.c
+            # the transaction orders its participants by sortKey(): both orders
+            hc.sortKey = lambda: '0' if hist_first else '2'
+            live.sortKey = lambda: '1'
+            last = g.s.lastTransaction()
+            if mod_live:
+                live.root()['a']['x'] = 'live-change'
+            if mod_hist:
+                hc.root()['hist-change'] = 1
+            try:
+                g.tm.commit()
+                ok = True
+            except locks.Blocked as ex:
+                fail('commit with a historical connection waits forever for the commit lock held by its own transaction', str(ex))
+            except Exception:
+                ok = False
+                g.tm.abort()
+            check(ok == (not mod_hist), 'commit through a historical connection succeeded / a commit of live changes only failed', mod_live, mod_hist)
+            if ok and mod_live:
+                check(g.s.lastTransaction() != last, 'live change not committed')
+            if not ok:
+                check(g.s.lastTransaction() == last, 'a transaction with a change through a historical connection was stored')
+                check(live.root()['a'].get('x') != 'live-change', 'live connection keeps the change of the failed transaction')
+                live.root()['a']['x'] = 'after'
+                try:
+                    g.tm.commit()
+                except Exception as ex:
+                    fail('live connection cannot commit after the failed mixed transaction', type(ex).__name__, str(ex))
+                check(g.s.lastTransaction() != last, 'follow-up commit stored nothing')
+            hc.close()
+        finally:
+            locks.uninstall()
+    reached()
+
+
 HARNESSES = [
     Harness('bound', h_bound,
             decides='a connection opened at/before any 8-byte point shows every object exactly as the history had it at that '
@@ -319,6 +368,14 @@ HARNESSES = [
             code=['Connection.get_connection', 'DB.open', 'DB.getTID', 'HistoricalStorageAdapter.load', 'FileStorage.loadBefore'],
             quick=dict(timeout=150, shards=shards(form=['before', 'at'])),
             thorough=dict(timeout=600, shards=shards(form=['before', 'at']))),
+    Harness('mixed_commit', h_mixed_commit,
+            decides='a transaction joined by a historical and a live connection of one database (either participant order, either or '
+                    'both modified): a change through the historical connection makes the commit FAIL (no success, no wait on the '
+                    'transaction\'s own commit lock), nothing is stored, and the live connection commits afterwards',
+            symbolic='participant order, which connections are modified, selector of the historical bound', bounds='history G1',
+            oracle='last transaction id + live view', code=['Connection.tpc_begin/commit/_commit (ReadOnlyHistoryError)/tpc_abort', 'HistoricalStorageAdapter (copied tpc methods)',
+                                                            'BaseStorage.tpc_begin (commit lock)'],
+            quick=dict(timeout=100, shards=shards()), thorough=dict(timeout=200, shards=shards())),
     Harness('datetime', h_datetime,
             decides='datetime forms of at/before around every instant of the history select the same states',
             symbolic='selector over transactions, microsecond offset selector (-3, 0, +3 us); naive / aware (+05:30) / aware (-07:00) datetimes are shards',
